@@ -68,10 +68,10 @@ let () =
                  Buffer.add_string out ("g:" ^ show_comps (firstn (int_of_string n) (skipn (int_of_string p) a)) ^ "|")
                | _ -> ()) ops;
              Buffer.add_string out ("f:" ^ hex_of_bytes !f)
-           end else if codec = "oop" || codec = "oopdoc" then begin
+           end else if codec = "oop" then begin
              let st = ref { o_old = raw_decode x86_64 ty sex initb; o_exists = (init <> "-"); o_ropen = false; o_rpos = O; o_tmp = None } in
              let ch = nat_of_int (int_of_string chunk) in
-             let get = if codec = "oop" then oop_get_code ch else oop_get_doc ch in
+             let get = oop_get ch in
              List.iter (fun op -> match toks op with
                | "P" :: p :: cs -> st := oop_put zero ch !st (nat_of_int (int_of_string p)) (group (ncomp ti) (List.map hexz cs))
                | ["G"; p; n] ->
@@ -83,13 +83,12 @@ let () =
              let st' = oop_finish ch !st in
              Buffer.add_string out ("f:" ^ hex_of_bytes (raw_layout x86_64 ty sex st'.o_old))
            end else begin
-             (* sie / siefix: mode 0 closed, 1 read handle, 2 write handle *)
-             let put = if codec = "sie" then sie_put else sie_put_flushed in
-             let st = ref (sieh_open zero (sie_parse x86_64 ty sex initb)) and mode = ref 0 and bad = ref false in
+             (* sie: mode 0 closed, 1 read handle, 2 write handle *)
+             let st = ref (sie_open zero (sie_parse x86_64 ty sex initb)) and mode = ref 0 and bad = ref false in
              List.iter (fun op -> if not !bad then match toks op with
                | "P" :: p :: cs ->
                  if !mode <> 2 then begin st := sie_reopen zero !st; mode := 2 end;
-                 (match put zero (z_of_int (int_of_string p)) (group (ncomp ti) (List.map hexz cs)) !st with
+                 (match sie_put zero (z_of_int (int_of_string p)) (group (ncomp ti) (List.map hexz cs)) !st with
                   | Some s' -> st := s'
                   | None -> bad := true; Buffer.add_string out "!")
                | ["G"; p; n] ->
@@ -98,9 +97,8 @@ let () =
                  st := s';
                  Buffer.add_string out ("g:" ^ show_comps a ^ "|")
                | ["F"] -> st := sie_reopen zero !st; mode := 0
-               | ["S"] -> st := sie_sync !st
                | _ -> ()) ops;
-             Buffer.add_string out ("f:" ^ hex_of_bytes (sie_layout x86_64 ty sex (recs (sh !st))))
+             Buffer.add_string out ("f:" ^ hex_of_bytes (sie_layout x86_64 ty sex (recs !st)))
            end;
            print_endline (Buffer.contents out)
          | _ -> print_endline "?")
